@@ -45,11 +45,16 @@ func (r *registry) Pull(_ context.Context, ref string) (*packages.RawPackage, er
 }
 
 // gcMonitor: slice garbage collection never deletes a slice still referenced by the deployment template or an ObjectSet.
-type gcMonitor struct{}
+type gcMonitor struct {
+	// hide: how many requests a freshly created object stays invisible to the Package controller's cache (nil: none)
+	hide *int64
+	// youngDeleted: slices deleted while the ObjectSet referencing them was not yet visible in the cache
+	youngDeleted map[string]bool
+}
 
 func (gcMonitor) OnPassEnd(*scen.Env, driver.PassResult) {}
 
-func (gcMonitor) OnRequest(e *scen.Env, req *simkube.Request) {
+func (m gcMonitor) OnRequest(e *scen.Env, req *simkube.Request) {
 	if req.Verb != "delete" || req.DryRun || req.Err != nil || !strings.HasSuffix(req.GVK.Kind, "ObjectSlice") || req.Pass == nil {
 		return
 	}
@@ -77,7 +82,22 @@ func (gcMonitor) OnRequest(e *scen.Env, req *simkube.Request) {
 					for _, sl := range ph.Slices {
 						if sl == req.Key.Name {
 							e.Count("c14_gc_keep_checked")
-							e.Report("C14:gc-deleted-slice-referenced-by-objectset", fmt.Sprintf("%s deleted while %s %s (revision %d) references it: %s", req.Key.Name, k.Kind, k.Name, ow.Revision, req))
+							sig := "C14:gc-deleted-slice-referenced-by-objectset"
+							// age of the referencing ObjectSet when this pass listed the ObjectSets
+							age := st.AgeLocked(k)
+							for _, pr := range req.Pass.Requests {
+								if pr.Verb == "list" && strings.HasSuffix(pr.GVK.Kind, "ObjectSet") {
+									age = st.AgeLocked(k) - int64(req.Seq-pr.Seq)
+								}
+							}
+							if m.hide != nil && age <= *m.hide {
+								// the referencing ObjectSet was created so recently that the controller's cached list does not show it yet
+								sig += ":objectset-not-yet-visible-in-cache"
+								if m.youngDeleted != nil {
+									m.youngDeleted[req.Key.Name] = true
+								}
+							}
+							e.Report(sig, fmt.Sprintf("%s deleted while %s %s (revision %d) references it: %s", req.Key.Name, k.Kind, k.Name, ow.Revision, req))
 						}
 					}
 				}
